@@ -20,6 +20,7 @@ each replayed against the real code from corpus/C04/):
 -/
 import KinModel.Lemmas.C04Reach
 import KinModel.Lemmas.C04Witness
+import KinModel.Gen.ParamStyles
 namespace KinModel.DocValidate
 
 /-! ### Obligations on the regenerated table -/
@@ -63,6 +64,30 @@ theorem table_ok : TableOK codeTable = true := code_facts.2.1
 `mediaType → encoding`, `schema → xml`, `schema → discriminator`; every other one is followed
 unconditionally -/
 theorem edges_cover_partial : uncovered codeTable = knownUncovered := code_facts.2.2.1
+
+/-- the finite domain over which the style tables are compared: every `in` and style name of the OpenAPI
+specification, plus a foreign and an empty one -/
+def styleDomain : List (String × String × Bool) :=
+  (["path", "query", "header", "cookie", "body", ""].flatMap fun l =>
+    ["form", "simple", "label", "matrix", "spaceDelimited", "pipeDelimited", "deepObject", "weird", ""].flatMap fun s =>
+      [(l, s, true), (l, s, false)])
+
+/-- the (in, style, explode) case list of `Parameter.Validate`, regenerated from the source, is the table
+of the OpenAPI 3.0 specification (`smSupported`, which the rule `badStyle` of the specification uses): same
+verdict on the whole domain, no row outside it, nothing unread -/
+theorem style_table_is_oas_table :
+    Gen.paramStylesUnrecognised = [] ∧
+    Gen.paramStyles.all (fun x => styleDomain.contains x) = true ∧
+    styleDomain.all (fun x => Gen.paramStyles.contains x == smSupported x.1 x.2.1 x.2.2) = true := by
+  decide +kernel
+
+/-- the defaults of `Parameter.SerializationMethod`, regenerated from the source, are those of the
+specification (`smOf`): `simple`/no explode for path and header, `form`/explode for query and cookie -/
+theorem style_defaults_are_oas_defaults :
+    (["path", "query", "header", "cookie"].all fun l =>
+      (Gen.paramStyleDefaults.lookup l == some (smOf { strs := [("in", l)] }))) = true ∧
+    Gen.paramStyleDefaults.length = 4 := by
+  decide +kernel
 
 /-! ### The descent -/
 
